@@ -29,8 +29,20 @@ def build(rows):
     return a
 
 
-def residue_contract(rows):
+def as_stack(a):
+    """a stack whose number of models differs from its number of atoms"""
+    models = []
+    for m in range(a.array_length() + 2):
+        b = a.copy()
+        b.coord = a.coord + m
+        models.append(b)
+    return struc.stack(models)
+
+
+def residue_contract(rows, stack=False):
     a = build(rows)
+    if stack:
+        a = as_stack(a)
     n = len(rows)
     exp_starts = [0] + [i for i in range(1, n) if rows[i] != rows[i - 1]]
     starts = struc.get_residue_starts(a).tolist()
@@ -65,8 +77,9 @@ def residue_contract(rows):
         expv = [fn(np.asarray(data)[[j for j in range(n) if seg_of[j] == k]]).item() for k in range(len(exp_starts))]
         if got != expv or any(type(x) is not type(y) for x, y in zip(got, expv)):
             return f"apply_residue_wise({name}) = {got}, per-segment recomputation gives {expv}"
-    cgot = np.asarray(struc.apply_residue_wise(a, a.coord, np.mean, axis=0)).tolist()
-    cexp = [np.mean(a.coord[[j for j in range(n) if seg_of[j] == k]], axis=0).tolist() for k in range(len(exp_starts))]
+    c2 = a.coord if not stack else a.coord[0]
+    cgot = np.asarray(struc.apply_residue_wise(a, c2, np.mean, axis=0)).tolist()
+    cexp = [np.mean(c2[[j for j in range(n) if seg_of[j] == k]], axis=0).tolist() for k in range(len(exp_starts))]
     if not np.allclose(cgot, cexp):
         return "apply_residue_wise(coord, np.mean, axis=0) differs from per-segment recomputation"
     spread = struc.spread_residue_wise(a, np.arange(len(exp_starts))).tolist()
@@ -80,8 +93,10 @@ def residue_contract(rows):
     return None
 
 
-def chain_contract(rows):
+def chain_contract(rows, stack=False):
     a = build(rows)
+    if stack:
+        a = as_stack(a)
     n = len(rows)
     exp = [0] + [i for i in range(1, n) if rows[i][0] != rows[i - 1][0] or rows[i][1] < rows[i - 1][1]]
     got = struc.get_chain_starts(a).tolist()
@@ -109,6 +124,11 @@ for n in range(1, maxn + 1):
     for rows in itertools.product(ROWS, repeat=n):
         R.check("residue views == per-atom recomputation", "residues", {"rows": list(rows)}, lambda rows=rows: residue_contract(list(rows)))
         R.check("chain views == per-atom recomputation", "chains", {"rows": list(rows)}, lambda rows=rows: chain_contract(list(rows)))
+        if n <= 3 or R.thorough:
+            R.check("residue views == per-atom recomputation", "residues of a stack", {"rows": list(rows), "stack": True},
+                    lambda rows=rows: residue_contract(list(rows), stack=True))
+            R.check("chain views == per-atom recomputation", "chains of a stack", {"rows": list(rows), "stack": True},
+                    lambda rows=rows: chain_contract(list(rows), stack=True))
 
 
 def components(n, bonds):
